@@ -168,7 +168,19 @@ func run(c *core.Ctx) {
 		// where the shipped nonprod command line keeps its state the same way, half of the histories run their commands
 		// through cmd.MakeApp (flag parsing and component composition included) instead of the library entry points
 		viaCLI := a.CLIable() && (hi/len(pairs))%2 == 1
-		h := &hist{c: c, idx: hi, gname: fmt.Sprintf("history#%d %s cli=%v", hi, a.Name(), viaCLI), a: a}
+		// a service that keeps ONE certificate-authority value across its commands (storage-backed authorities, library path)
+		longCA := a.CA != authority.MemCA && !viaCLI && (hi/len(pairs))%4 == 2
+		a.LongLived = longCA
+		h := &hist{c: c, idx: hi, gname: fmt.Sprintf("history#%d %s cli=%v long-lived-ca=%v", hi, a.Name(), viaCLI, longCA), a: a}
+		// the documented form of a serial flag is a decimal number; operators pad them ("007"), which is still decimal
+		dec := func(n *big.Int) string {
+			s := n.String()
+			if viaCLI && r.IntN(2) == 0 {
+				s = strings.Repeat("0", 1+r.IntN(3)) + s
+				c.Count("zero-padded-decimal-serial-flags", 1)
+			}
+			return s
+		}
 		flags := func(o authority.Opts) []string {
 			var fl []string
 			if o.Overwrite {
@@ -237,6 +249,13 @@ func run(c *core.Ctx) {
 				}
 			}
 			x := r.IntN(10)
+			if longCA && h.ep.active && step%3 == 1 {
+				// the value that served the first epoch now re-bootstraps over it (new serials, new root), and goes on rotating
+				x, overwrite, keepGoing = 0, true, false
+				opts = authority.Opts{Overwrite: true}
+			} else if longCA && h.ep.active && step%3 == 2 {
+				x = 6 // rotate
+			}
 			var kind string
 			var err error
 			f := &doubles.FCtl{}
@@ -244,7 +263,7 @@ func run(c *core.Ctx) {
 			case x < 2 || (!h.ep.active && x < 6):
 				kind = "bootstrap"
 				bc := &rotate.BootstrapContext{RootKeyCommonName: "rootCn", SigningKeyCommonName: "signingKeyCn", RootKeySerial: big.NewInt(1), SigningKeySerial: big.NewInt(2), Now: now}
-				if r.IntN(3) == 0 {
+				if r.IntN(3) == 0 || (longCA && h.ep.active) || (viaCLI && r.IntN(2) == 0) {
 					bc.RootKeySerial, bc.SigningKeySerial = big.NewInt(int64(1+r.IntN(500))), big.NewInt(int64(1000+r.IntN(500)))
 					kind = "bootstrap(serials)"
 					if r.IntN(3) == 0 { // serial numbers are arbitrary-precision: beyond 64 bits
@@ -256,7 +275,7 @@ func run(c *core.Ctx) {
 				}
 				if viaCLI {
 					err = a.CLI(append([]string{"bootstrap", "--timestamp", now.Format(time.RFC3339), "--root_key_cn", bc.RootKeyCommonName, "--signing_key_cn", bc.SigningKeyCommonName,
-						"--root_key_serial", bc.RootKeySerial.String(), "--initial_signing_key_serial", bc.SigningKeySerial.String()}, flags(opts)...)...)
+						"--root_key_serial", dec(bc.RootKeySerial), "--initial_signing_key_serial", dec(bc.SigningKeySerial)}, flags(opts)...)...)
 				} else {
 					err = a.Bootstrap(f, opts, bc)
 				}
@@ -302,7 +321,11 @@ func run(c *core.Ctx) {
 						want = new(big.Int).Add(ps, big.NewInt(1))
 					}
 				}
-				switch x := r.IntN(12); {
+				xs := r.IntN(12)
+				if viaCLI && r.IntN(3) == 0 {
+					xs = 0 // the command line is where serial overrides are typed
+				}
+				switch x := xs; {
 				case x < 2:
 					skc.SigningKeySerial = big.NewInt(int64(5000 + 100*step + r.IntN(50)))
 					kind = "rotate(serial-override)"
@@ -323,7 +346,7 @@ func run(c *core.Ctx) {
 				if viaCLI {
 					args := []string{"rotate", "--timestamp", now.Format(time.RFC3339), "--signing_key_cn", skc.SigningKeyCommonName}
 					if skc.SigningKeySerial != nil {
-						args = append(args, "--rotated_key_serial_override", skc.SigningKeySerial.String())
+						args = append(args, "--rotated_key_serial_override", dec(skc.SigningKeySerial))
 					}
 					err = a.CLI(append(args, flags(opts)...)...)
 				} else {
@@ -422,6 +445,10 @@ func run(c *core.Ctx) {
 			outcome := "ok"
 			if err != nil {
 				outcome = "refused"
+				a.DropLongLived() // a careful service discards its authority value after a failed command (C10 owns the other kind)
+			}
+			if longCA {
+				c.Count("commands-run-by-a-long-lived-authority-value", 1)
 			}
 			cmds = append(cmds, fmt.Sprintf("%s overwrite=%v keep_going=%v now=%s -> %v", kind, overwrite, keepGoing, now.Format("2006-01-02"), err))
 			h.cmds = cmds
